@@ -1,6 +1,7 @@
 // C18: a failed operation leaves its target and its arguments unchanged.
 #include <string_theory/codecs>
 #include <string_theory/format>
+#include <string_theory/format_numeric>
 #include <string_theory/string>
 #include <string_theory/string_stream>
 
@@ -46,7 +47,8 @@ struct World {
     Placed<ST::utf32_buffer> b32; std::u32string m32;
     Placed<ST::wchar_buffer> bw; std::wstring mw;
     Placed<ST::string_stream> ss[NSS]; std::string mss[NSS];
-    std::string out, mout;                       // a caller-supplied std::string (to_std_string(std::string&, ...))
+    std::string out, mout;
+    ST::float_formatter<double> ff; std::string mff;   // a re-used public formatter object: a rejected letter (bad_format) must leave its text                       // a caller-supplied std::string (to_std_string(std::string&, ...))
     std::string log; bool want_log = false;
     bool nontrivial = false; int pending_long_fail = 0;
     long failed_steps = 0, ok_steps = 0;
@@ -69,6 +71,7 @@ struct World {
         m16.assign(b16.obj->data(), b16.obj->size()); m32.assign(b32.obj->data(), b32.obj->size()); mw.assign(bw.obj->data(), bw.obj->size());
         for (int i = 0; i < NSS; i++) mss[i].assign(ss[i].obj->raw_buffer(), ss[i].obj->size());
         mout = out;
+        mff.assign(ff.text(), ff.size());
     }
     // everything equals its model; "" when fine
     std::string unchanged() {
@@ -85,6 +88,7 @@ struct World {
         for (int i = 0; i < NSS; i++) { const ST::string_stream &t = *ss[i].obj;
             if (t.size() != mss[i].size() || memcmp(t.raw_buffer(), mss[i].data(), mss[i].size()) != 0) { snprintf(msg, sizeof msg, "string_stream %d no longer holds its previous content (size %zu, was %zu)", i, t.size(), mss[i].size()); return msg; } }
         if (out != mout) return "the caller-supplied std::string no longer holds its previous value";
+        if (std::string(ff.text(), ff.size()) != mff) return "the float_formatter no longer holds its previous text";
         if (const char *e = va::error()) { std::string w = e; va::clear_error(); return w; }
         return std::string();
     }
@@ -98,14 +102,17 @@ std::string good_utf8(verif::Reader &r, bool longv) {
     ref::Units u = ref::encode(ref::UTF8, sc); return std::string(u.begin(), u.end());
 }
 // malformed by construction: a well-formed text with an offending unit inserted in the middle (no NUL inside)
-ref::Units bad_units(verif::Reader &r, ref::Enc enc, bool longv) {
-    std::vector<uint32_t> sc; size_t n = longv ? 18 + r.range(0, 30) : r.range(0, 8); uint8_t st = r.u8();
+ref::Units bad_units(verif::Reader &r, ref::Enc enc, bool longv, bool huge = false) {
+    static const uint16_t hugelens[] = {257, 300, 513, 600, 1025, 1500, 2049, 4100};
+    std::vector<uint32_t> sc; size_t n = huge ? r.pick(hugelens) : longv ? 18 + r.range(0, 30) : r.range(0, 8); uint8_t st = r.u8();
     for (size_t i = 0; i < n; i++) sc.push_back((st & 1) && i % 3 == 1 ? 0xE9 : (st & 2) && i % 5 == 2 ? 0x1F600 : 'A' + (i + st) % 26);
     ref::Units u = ref::encode(enc, sc);
     static const uint32_t bad8[] = {0xFF, 0x80, 0xC3, 0xE2, 0xF8, 0xBF}, bad16[] = {0xD800, 0xDC00, 0xDBFF}, bad32[] = {0x110000, 0xFFFFFFFFu, 0x7FFFFFFF};
     size_t pos = u.empty() ? 0 : r.idx(u.size() + 1);
     // inserting before a continuation unit could repair/merge sequences; insert at a character boundary of the scalar sequence instead
-    size_t k = sc.empty() ? 0 : r.idx(sc.size() + 1); pos = 0; for (size_t i = 0; i < k; i++) { ref::Units one; ref::encode_one(enc, sc[i], one); pos += one.size(); }
+    size_t k = sc.empty() ? 0 : r.idx(sc.size() + 1);
+    if (huge) k = sc.size() - r.idx(sc.size() / 4 + 1);       // a very long text goes wrong only near its end (after 256 / 512 / 1024 / ... good units)
+    pos = 0; for (size_t i = 0; i < k; i++) { ref::Units one; ref::encode_one(enc, sc[i], one); pos += one.size(); }
     uint32_t b = enc == ref::UTF8 ? r.pick(bad8) : enc == ref::UTF16 ? r.pick(bad16) : r.pick(bad32);
     u.insert(u.begin() + pos, b);
     // make sure it really is offending where it stands (e.g. C3 followed by a continuation byte would be well-formed)
@@ -119,8 +126,10 @@ enum Expect { NONE = 0, UNICODE = 1, CODEC = 2, FORMAT = 4, RANGE = 8 };
 
 // One step.  Returns "" or a violation.  `threw` reports whether a permitted exception was thrown.
 std::string step(verif::Reader &r, Case &c, World &w, size_t k) {
-    int op = (int)r.range(0, 48), i = (int)r.idx(NSTR), j = (int)r.idx(NCB), q = (int)r.idx(NSS);
+    int op = (int)r.range(0, 49), i = (int)r.idx(NSTR), j = (int)r.idx(NCB), q = (int)r.idx(NSS);
     bool longv = r.flag();
+    const bool huge = r.chance(20);      // 1 step in 13: very long malformed inputs whose offending unit comes late
+    if (huge) c.label("input:very-long-malformed");
     ST::string &S = *w.s[i].obj; ST::char_buffer &B = *w.cb[j].obj; ST::string_stream &Q = *w.ss[q].obj;
     bool target_long = false;
     const char *what = "";
@@ -128,7 +137,7 @@ std::string step(verif::Reader &r, Case &c, World &w, size_t k) {
     int thrown = NONE; std::string exwhat;
     // inputs are prepared outside the library scope
     std::string g8 = good_utf8(r, longv);
-    ref::Units u8 = bad_units(r, ref::UTF8, longv), u16 = bad_units(r, ref::UTF16, longv), u32 = bad_units(r, ref::UTF32, longv);
+    ref::Units u8 = bad_units(r, ref::UTF8, longv, huge), u16 = bad_units(r, ref::UTF16, longv, huge), u32 = bad_units(r, ref::UTF32, longv, huge);
     std::string bad8 = typed<char>(u8); std::u16string bad16 = typed<char16_t>(u16); std::u32string bad32 = typed<char32_t>(u32); std::wstring badw = typed<wchar_t>(u32);
     for (char &ch : bad8) if (!ch) ch = '0';
     verif::Exact<char> e8(bad8.data(), bad8.size(), true); verif::Exact<char16_t> e16(bad16.data(), bad16.size(), true); verif::Exact<char32_t> e32(bad32.data(), bad32.size(), true); verif::Exact<wchar_t> ew(badw.data(), badw.size(), true);
@@ -197,6 +206,8 @@ std::string step(verif::Reader &r, Case &c, World &w, size_t k) {
         case 47: { std::wistringstream is(badw); is >> S; what = "wistream >> s (malformed token)"; target_long = S.size() >= 16; break; }
         case 48: { int v = (int)r.range(0, 2); if (v == 0) S = ST::string::from_std_string(bad8); else if (v == 1) S.set(std::string_view(e8.data(), bad8.size())); else S = ST::string(bad32, ST::check_validity);
                    what = "s = from_std_string / string_view / u32string (malformed)"; target_long = S.size() >= 16; break; }
+        case 49: { static const char letters[] = "gfeEqx\x01Z%d"; char l = letters[r.idx(sizeof letters - 1)]; double v = (double)(int)r.range(0, 2000) / 8.0 - 100.0;
+                   w.ff.format(v, l); what = "float_formatter::format(value, letter)"; break; }
         // ---- out_of_range
         case 40: { char ch = S.at(S.size() + r.range(0, 3)); (void)ch; what = "s.at(size+k)"; break; }
         default: { char ch = B.at(B.size()); (void)ch; what = "buffer.at(size)"; break; }
